@@ -98,6 +98,10 @@ func Load(blob []byte) (*PatchSet, error) {
 	} else if h.Version != 1 {
 		return nil, fmt.Errorf("unsupported binpatch version %d", h.Version)
 	}
+	// every patch has a fixed-size header, so the count is bounded by what is left
+	if int64(h.NumPatches)*int64(binary.Size(PatchHeader{})) > int64(r.Len()) {
+		return nil, io.ErrUnexpectedEOF
+	}
 	num := int(h.NumPatches)
 	p := &PatchSet{
 		Patches: make([]PatchHeader, num),
@@ -107,6 +111,9 @@ func Load(blob []byte) (*PatchSet, error) {
 		return nil, err
 	}
 	for i, hdr := range p.Patches {
+		if int64(hdr.NewSize) > int64(r.Len()) {
+			return nil, io.ErrUnexpectedEOF
+		}
 		p.Blobs[i] = make([]byte, int(hdr.NewSize))
 		if _, err := io.ReadFull(r, p.Blobs[i]); err != nil {
 			return nil, err
